@@ -79,9 +79,22 @@ pub fn parse_args() -> Args {
             .ok()
             .and_then(|s| s.parse().ok())
             .unwrap_or_else(|| {
-                std::thread::available_parallelism()
+                let n = std::thread::available_parallelism()
                     .map(|n| n.get())
-                    .unwrap_or(4)
+                    .unwrap_or(4);
+                // Be a good neighbour on an oversubscribed box (several checks developed in
+                // parallel): results never depend on the job count, only wall time does.
+                let load = std::fs::read_to_string("/proc/loadavg")
+                    .ok()
+                    .and_then(|s| s.split_whitespace().next().and_then(|x| x.parse::<f64>().ok()))
+                    .unwrap_or(0.0);
+                if load > 2.0 * n as f64 {
+                    (n / 4).max(2)
+                } else if load > n as f64 {
+                    (n / 2).max(2)
+                } else {
+                    n
+                }
             }),
         replay: None,
         rest: vec![],
